@@ -1987,6 +1987,8 @@ import Updog.Basic.GoPreludeT6 -- [t6]
 import Updog.Basic.GoPreludeT5 -- [t5]
 import Updog.Basic.GoPreludeT3 -- [t3]
 import Updog.Basic.GoPreludeT4 -- [t4]
+import Updog.Basic.GoPreludeT7 -- [t7]
+import Updog.Basic.GoPreludeT8 -- [t8]
 /-
 GENERATED by /verif/extract (translate.go) from the Go source on every run of ./check. Do not edit.
 Lean transcriptions of small pure Go functions, over the primitives of Updog/Basic/GoPrelude.lean.
@@ -2073,6 +2075,8 @@ func translateAll(repo string) (leanText string, lost map[string]string) {
 	tr.translateT5(emit, wrap) // [t5]
 	tr.translateT3(emit, wrap) // [t3]
 	tr.translateT4(emit, wrap) // [t4]
+	tr.translateT7(emit, wrap) // [t7]
+	tr.translateT8(emit, wrap) // [t8]
 	b.WriteString("end Updog.Gen\n")
 	return b.String(), lost
 }
